@@ -202,7 +202,8 @@ def guid_le(u):
 def vhdx(size=10 << 20, regions=None, meta_entries=None, meta_off=320 * KiB,
          item_off=64 * KiB, item_len=8, pads=0, meta_pads=0, regi=0x69676572,
          msig=b'metadata', ident=b'vhdxfile', length=None, fill=b'\x00'):
-    length = length or (meta_off + item_off + 4096)
+    length = length or max(meta_off + item_off + 4096,
+                           meta_off + 64 * KiB + 4096)
     img = bytearray(fill * length)[:length]
     img[0:8] = ident
     hdr = 192 * KiB
